@@ -13,7 +13,7 @@ use syn::{
 use crate::{
     bound::{Bound, Bounds, WhereClauseBuilder},
     common::BinaryOp,
-    syn_utils::{expand_self, DropTrailingPlus},
+    syn_utils::{expand_self, DropTrailingPlus, ResolveGroups},
 };
 
 use self::compare_op::{
@@ -1508,7 +1508,9 @@ impl HelperAttributeForDefault {
             let value = if args.value == parse_quote!(_) {
                 None
             } else {
-                Some(args.value)
+                let mut value = args.value;
+                ResolveGroups.visit_expr_mut(&mut value);
+                Some(value)
             };
             Ok(Some(Self {
                 value,
